@@ -368,6 +368,9 @@ def check_exact(ctx):
 
 
 def run(ctx):
+    from ..lints import check_caches
+
+    check_caches(ctx, "C15-D8 caches", ['estimation._estimation', 'api.estimation'])
     check_split(ctx)
     check_averaging(ctx)
     check_non_measured(ctx)
@@ -404,6 +407,11 @@ def run(ctx):
         c01.check_native_split(sub, base)
 
     share_rule(ctx, "C01", _threading, "C15-D7 simulated-state")
+    # "... equal the state's quadratic form": decided once, by C09-D4
+    from . import c09
+
+    share_rule(ctx, "C09", c09.check_expectation, "C15-D9 quadratic-form")
+    ctx.floor("C15-D9", 5)
     ctx.floor("C15-D7", 5)
     ctx.floor("C15-D1", 14)
     ctx.floor("C15-D2", 2)
